@@ -6,7 +6,7 @@
    are inputs.  XFuel is the model's budget for nested forward_message calls (Python's own
    limit is its recursion limit; see C03_fuel_note). *)
 From Coq Require Import ZArith List Bool.
-From Mgr Require Import Gen.MgrDefs Model.Manager Model.Encode Proofs.RegInv Proofs.Frame Proofs.RegTraverse Proofs.RegTop Proofs.Connect Proofs.StepInv Proofs.Fuel.
+From Mgr Require Import Gen.MgrDefs Model.Manager Model.Encode Proofs.RegInv Proofs.Frame Proofs.RegTraverse Proofs.RegTop Proofs.Connect Proofs.StepInv Proofs.Fuel Proofs.FuelTop.
 Import ListNotations.
 Open Scope Z_scope.
 
@@ -38,6 +38,22 @@ Proof.
   destruct (J_NC_ok X n (forward cfg fuel h p) s (J_forward cfg fuel X h p) (NC_forward cfg fuel X n h p Hb) H Hl)
     as ([] & s' & E & H' & F). eauto.
 Qed.
+
+(* Whole histories: with a nesting budget of 2 * (accepted connections + 1) + 2 the manager never stops -
+   for every configuration and EVERY finite history of events it runs to completion in a state satisfying
+   the step invariant.  (The manager's own module counts as one; `accepts es` is the number of rounds of es
+   in which a connection is accepted.) *)
+Theorem C03_total : forall cfg FUEL es,
+  (2 * (accepts es + 1) + 2 <= FUEL)%nat ->
+  exists s, run cfg FUEL es = Ok tt s /\ StepInv s.
+Proof. exact run_total. Qed.
+
+(* the bound is of the right order: three subscribers of CLIENT_CLOSED failing together *)
+Example C03_total_ex :
+  (2 * (accepts ex_cascade + 1) + 2 = 10)%nat /\
+  exn_code_of (run (mkConfig 60 true) 2%nat ex_cascade) <> 0 /\
+  exn_code_of (run (mkConfig 60 true) 10%nat ex_cascade) = 0.
+Proof. vm_compute. repeat split; discriminate. Qed.
 
 Theorem C03_rank_le_2 : forall h, (1 <= rank h <= 2)%nat.
 Proof. exact rank_le. Qed.
